@@ -11,6 +11,7 @@ mod graph;
 mod merkle_driver;
 mod node_driver;
 mod pool_driver;
+mod producer_driver;
 mod repair_driver;
 mod sim;
 mod sampler_driver;
@@ -102,6 +103,7 @@ fn main() -> anyhow::Result<()> {
         "replay-shred" => shred_driver::run(&args, seed)?,
         "replay-shredauth" => shredauth_driver::run(&args, seed)?,
         "replay-repair" => repair_driver::run(&args, seed)?,
+        "replay-producer" => producer_driver::run(&args, seed)?,
         "replay-blockstore" => blockstore_driver::run(&args, seed)?,
         "replay-wire" => wire_driver::replay(
             &arg_after(&args, "--tlc-out").expect("--tlc-out"),
@@ -125,6 +127,7 @@ fn main() -> anyhow::Result<()> {
                 byz_mode: arg_after(&args, "--byz-mode").unwrap_or_else(|| "silent".into()),
                 crashed: list("--crashed"),
                 crash_at_ms: num("--crash-at", 0),
+                standstill_ms: num("--standstill", 0),
                 seed,
                 gst_ms: num("--gst", 0),
                 chaos_ms: num("--chaos", 2000),
